@@ -1,6 +1,8 @@
 """C18 - a plot draws exactly the fit's numbers.
 
-Mode D (complete product): fit type x uncertainty configuration x axis scales x plot option x {one fit, two fits},
+Mode D (complete product): fit type x uncertainty configuration x data region x axis scales x plot option x {one fit, two fits},
+(data region: all values positive and inside the range / one zero count or empty bin / histogram entries outside the bin range /
+histogram model given as counts, density=False),
 each executed on the real kafe2.Plot (Agg backend) after do_fit().  The matplotlib artists of Plot.axes are read back
 through the public matplotlib API and compared with the plain numbers the fits were built from (data, declared
 pointwise uncertainties, bin edges, the python model function evaluated at fit.parameter_values) and with the public
@@ -20,14 +22,16 @@ logging.getLogger("matplotlib.font_manager").setLevel(logging.ERROR)  # 'findfon
 
 PROPERTY = "C18"
 RULE = (
-    "configurations = (fit type, uncertainty configuration, axis scales, plot option, number of fits on the plot); each is built "
+    "configurations = (fit type, uncertainty configuration, data region, axis scales, plot option, number of fits on the plot); each is built "
     "from fixed arrays on the real API, fitted, plotted with kafe2.Plot and every data-bearing artist of Plot.axes (error bar "
     "containers, model lines / bars / steps, bands, ratio / residual / pull panels, figure legend) is read back and compared; a "
     "configuration is non-trivial when at least one error bar has non-zero length, a panel or a band is drawn, or two fits share the plot"
 )
 ASSUMPTIONS = [
     "the association artist -> (fit index, subplot type) is taken from the documented return value of Plot.plot() and every such artist is verified to be a child of the corresponding axes in Plot.axes",
-    "pull panels are only requested when the fit has a non-zero pointwise y uncertainty (a pull without uncertainty is undefined); ratio / residual / pull of an unbinned fit must be rejected with TypeError (no y data)",
+    "pull panels are only requested when every point of the fit has a non-zero pointwise y uncertainty (a pull without uncertainty is undefined: no source at all, or a zero value whose only uncertainty is the Poisson term or a source relative to the data); ratio / residual / pull of an unbinned fit must be rejected with TypeError (no y data)",
+    "a point whose total y uncertainty is zero (a zero count under pure Poisson statistics, a zero value with data-relative y sources only) has an error bar of zero length; the bars of the other points are the statement's 'total pointwise uncertainties' regardless",
+    "the histogram model is scaled to the number of entries of the container including underflow and overflow (HistContainer.n_entries; the model bars are compared with exactly that); for unequal bin widths, where the scale of the density curve is left open, the factor per entry is still required to be the one of the same binning without entries outside the range (curve and bars are scaled to the same number of entries)",
     "x log scale is not requested for indexed fits (the adapter declares only a linear x scale)",
     "the histogram density curve is required to be proportional to the model density at the current parameters; the factor N * bin width is only demanded for equal-width bins (for unequal widths the statement leaves the scale open)",
     "the sigma of ratio / residual / pull panels of an xy fit is the pointwise y uncertainty (not the x-projected total), as the statement says",
@@ -65,8 +69,9 @@ def configs(tier, v):
     for ftype in ("xy", "indexed", "hist", "unbinned"):
         uncs = list(R.UNC[ftype]) + (R.UNC_THOROUGH_EXTRA[ftype] if tier == "thorough" else [])
         for unc in uncs:
-            for axes in R.AXES[ftype]:
-                out.append((ftype, unc, axes, v))
+            for data in R.DATA[ftype]:
+                for axes in R.axes_for(ftype, data, tier):
+                    out.append((ftype, unc, data, axes, v))
     return out
 
 
@@ -74,11 +79,11 @@ def jobs(tier, seed):
     vals = [seed % 3] if tier == "quick" else [0, 1, 2]
     specs = []
     for v in vals:
-        for ftype, unc, axes, vv in configs(tier, v):
+        for ftype, unc, data, axes, vv in configs(tier, v):
             opts = OPTS if tier == "quick" else OPTS_THOROUGH
             nchunk = {"xy": 3, "hist": 2}.get(ftype, 1) * (1 if tier == "quick" else 2)
             for c in range(nchunk):
-                specs.append((ftype, unc, axes, vv, tier, tuple(opts[c::nchunk])))
+                specs.append((ftype, unc, axes, vv, tier, tuple(opts[c::nchunk]), data))
     # heavy jobs first (xy plots have the most artists), cheap ones fill the gaps
     weight = {"xy": 0, "hist": 1, "indexed": 2, "unbinned": 3}
     specs.sort(key=lambda s: (weight[s[0]], s[3]))
@@ -91,13 +96,16 @@ DETCHECK_JOB = 0
 def bound(tier, seed):
     return (
         "complete product: fit types {xy, indexed, histogram, unbinned} x uncertainty configurations %s x axis scales {lin, log x, log y, "
-        "log x+y where the adapter allows} x options %s x {one fit, two fits on one plot%s}; valuation(s) %s; every artist of every panel compared"
+        "log x+y where the adapter allows} x options %s x {one fit, two fits on one plot%s}; valuation(s) %s; every artist of every panel compared; "
+        "data regions {regular on all axis scales; one zero count / empty bin (xy, indexed, histogram), histogram entries below and above "
+        "the bin range and histogram model given as counts (density=False) on %s} x all of the other dimensions"
         % (
-            "{none, y (two sources, one correlated), x+y (absolute and relative), Poisson nll, Gauss approximation + y source}"
+            "{none, y (two sources, one correlated), x+y (absolute and relative), x + y relative to the data only, Poisson nll, Gauss approximation + y source}"
             + ("" if tier == "quick" else " + {Poisson nll + y source, y with a fixed parameter}"),
             "{plain, ratio, residual, pull, asymmetric errors, separate figures}" if tier == "quick" else "{plain, ratio, residual, pull, asymmetric errors, separate figures and 7 combinations of them}",
             "" if tier == "quick" else ", both orders of the two fits",
             (seed % 3) if tier == "quick" else "0,1,2",
+            "linear axes" if tier == "quick" else "linear and fully logarithmic axes",
         )
     )
 
@@ -162,8 +170,10 @@ def _check_data_bars(rec, tag, eb, w, y_expected, ybar_expected, kind):
     # y bars
     if ybar_expected is not None and np.any(ybar_expected != 0):
         if rec.truth(tag + ":ybar_present", eb["ylo"] is not None, "y error bars", "none drawn", (ft, kind, "ybar_present")):
-            rec.cmp(tag + ":ybar_lower", y_expected - eb["ylo"], ybar_expected, (ft, kind, "ybar"))
-            rec.cmp(tag + ":ybar_upper", eb["yhi"] - y_expected, ybar_expected, (ft, kind, "ybar"))
+            # some bars of zero length among bars of non-zero length: its own outcome class
+            cls = "ybar_partial_zero" if np.any(ybar_expected == 0) else "ybar"
+            rec.cmp(tag + ":ybar_lower", y_expected - eb["ylo"], ybar_expected, (ft, kind, cls))
+            rec.cmp(tag + ":ybar_upper", eb["yhi"] - y_expected, ybar_expected, (ft, kind, cls))
             rec.cmp(tag + ":ybar_position", eb["ybar_x"], xdata, (ft, kind, "ybar_x"))
     elif eb["ylo"] is not None:
         rec.cmp(tag + ":ybar_zero", np.concatenate([eb["ylo"], eb["yhi"]]), np.concatenate([y_expected, y_expected]), (ft, kind, "ybar_zero"))
@@ -285,8 +295,14 @@ def check_fit_in_axes(rec, w, label, axd, plots_by_axes, fit_index, opt):
             rec.truth(tag + ":density_positive_factor", bool(np.median(k) > 0), ">0", float(np.median(k)), (ft, "main", "density_sign"))
             rec.truth(tag + ":density_range", _xs_span_ok(x, xlim) and len(x) >= 50, list(xlim), [float(x[0]), float(x[-1]), len(x)], (ft, "main", "density_range"))
             widths = np.diff(w.edges)
+            cls = "density_scale" if w.data == "regular" else "density_scale_" + w.data
             if np.allclose(widths, widths[0], rtol=1e-12):
-                rec.cmp(tag + ":density_scale", y, w.n_entries * widths[0] * dens, (ft, "main", "density_scale"))
+                rec.cmp(tag + ":density_scale", y, w.scale * widths[0] * dens, (ft, "main", cls))
+            elif w.unit_ref is not None:
+                # differential: the factor between the curve and the entries per unit x is a matter of the binning alone (measured
+                # on the same binning filled with the regular entries and a normalised density), whatever lies outside the bin
+                # range and whether the normalisation comes from the number of entries or from a parameter
+                rec.cmp(tag + ":density_scale_per_entry", y / w.scale, w.unit_ref * dens, (ft, "main", cls))
 
     # -- panels
     panel = panel_of(opt)
@@ -403,33 +419,59 @@ def check_legend(rec, label, fig, worlds, asym):
                 rec.truth(tag + ":cost_value", ok, exp, g["value"].text, (w.ftype, "legend", "cost"))
 
 
-def pull_defined(ftype, unc):
-    return ftype != "unbinned" and unc != "none"
+def pull_defined(ftype, unc, data="regular"):
+    # a zero count under pure Poisson statistics has zero uncertainty: its pull is undefined
+    return ftype != "unbinned" and unc != "none" and not (unc in ("poisson", "x+rely") and data == "zero")
+
+
+_UNIT = {}
+
+
+def density_unit(role, v):
+    """factor of the drawn density curve per entry, measured on the binning of `role` filled with the regular entries
+    (independent of parameters, uncertainties and axis scales: curve / (entries * density at the same parameters))"""
+    import matplotlib.pyplot as plt
+
+    import kafe2
+
+    if (role, v) not in _UNIT:
+        w = R.World("hist", "poisson", v, role, "regular")
+        p = kafe2.Plot([w.fit])
+        res = p.plot()
+        ln = [d["artist"] for d in res[0]["main"]["plots"] if d["type"] == "model_density"][0][0]
+        x, y = R.read_line(ln)
+        k = y / w.fn(x, *w.pars()) / w.scale
+        _UNIT[(role, v)] = float(np.median(k)) if R.close(k, np.full_like(k, np.median(k))) else None
+        for f in p.figures:
+            plt.close(f)
+    return _UNIT[(role, v)]
 
 
 def execute(cfg):
-    """-> Rec (all comparisons of one configuration).  cfg: dict(ftype, unc, axes, opt, roles, v)"""
+    """-> Rec (all comparisons of one configuration).  cfg: dict(ftype, unc, axes, opt, roles, v[, data])"""
     import matplotlib.pyplot as plt
 
     import kafe2
 
     rec = Rec()
     ftype, unc, axes, opt, roles, v = cfg["ftype"], cfg["unc"], cfg["axes"], cfg["opt"], cfg["roles"], cfg["v"]
+    data = cfg.get("data", "regular")
     kw, separate = opt_kwargs(opt)
     rec.ops = 0
     try:
         # the minimizer base class print()s a warning whenever a Poisson likelihood is evaluated at a non-positive model
         with warnings.catch_warnings(), contextlib.redirect_stdout(io.StringIO()):
             warnings.simplefilter("ignore")
-            worlds = [R.World(ftype, unc, v, r) for r in roles]
+            worlds = [R.World(ftype, unc, v, r, data) for r in roles]
             for w in worlds:
+                w.unit_ref = density_unit(w.role, v) if (ftype == "hist" and data != "regular") else None
                 w.fit.do_fit()
                 rec.ops += 2
             if "asym" in opt.split("+"):
                 # asking a fit for asymmetric errors re-minimises it; the expectation is read from an identically
                 # built and fitted twin that is never plotted (the state 'after do_fit()' the statement speaks about)
                 for w in worlds:
-                    t = R.World(ftype, unc, v, w.role)
+                    t = R.World(ftype, unc, v, w.role, data)
                     t.fit.do_fit()
                     w.num = t.fit
             before = [[float(x) for x in w.fit.parameter_values] for w in worlds]
@@ -487,8 +529,8 @@ def execute(cfg):
     return rec
 
 
-def generated(ftype, unc, opt):
-    if panel_of(opt) == "pull" and ftype != "unbinned" and not pull_defined(ftype, unc):
+def generated(ftype, unc, opt, data="regular"):
+    if panel_of(opt) == "pull" and ftype != "unbinned" and not pull_defined(ftype, unc, data):
         return False
     return True
 
@@ -500,9 +542,9 @@ _MEMO = {}
 
 
 def _fails(cfg, observable):
-    key = (cfg["ftype"], cfg["unc"], cfg["axes"], cfg["opt"], tuple(cfg["roles"]), cfg["v"])
+    key = (cfg["ftype"], cfg["unc"], cfg["axes"], cfg["opt"], tuple(cfg["roles"]), cfg["v"], cfg.get("data", "regular"))
     if key not in _MEMO:
-        if not generated(cfg["ftype"], cfg["unc"], cfg["opt"]):
+        if not generated(cfg["ftype"], cfg["unc"], cfg["opt"], cfg.get("data", "regular")):
             _MEMO[key] = {}
         else:
             r = execute(cfg)
@@ -514,7 +556,7 @@ def _fails(cfg, observable):
 
 
 def minimise(cfg, bad):
-    """greedy: drop the second fit, linear axes, the smallest option, the simplest uncertainty configuration"""
+    """greedy: drop the second fit, linear axes, regular data, the smallest option, the simplest uncertainty configuration"""
     obs = bad["observable"]
     cur, curbad = dict(cfg), bad
     role = None
@@ -526,6 +568,7 @@ def minimise(cfg, bad):
         for r in [role] if role is not None else ["A", "B"]:
             trials.append(("roles", [r]))
     trials.append(("axes", "lin"))
+    trials.append(("data", "regular"))
     pan = None
     for k in ("ratio", "residual", "pull"):
         if (":" + k + ":") in obs:
@@ -539,6 +582,7 @@ def minimise(cfg, bad):
     for simpler in ("none", "y", "poisson"):
         trials.append(("unc", simpler))
     unc_done = False
+    cur.setdefault("data", "regular")
     for dim, val in trials:
         if cur[dim] == val or (dim == "unc" and unc_done):
             if dim == "unc" and cur[dim] == val:
@@ -559,14 +603,17 @@ def minimise(cfg, bad):
 
 
 def sig_of(cfg, observable):
-    return "%s|unc=%s|axes=%s|opt=%s|fits=%s|%s" % (cfg["ftype"], cfg["unc"], cfg["axes"], cfg["opt"], "".join(cfg["roles"]), observable)
+    # the data region is only named when it is not the regular one (signatures of regular configurations stay as they were)
+    d = cfg.get("data", "regular")
+    unc = cfg["unc"] if d == "regular" else "%s,data=%s" % (cfg["unc"], d)
+    return "%s|unc=%s|axes=%s|opt=%s|fits=%s|%s" % (cfg["ftype"], unc, cfg["axes"], cfg["opt"], "".join(cfg["roles"]), observable)
 
 
 # ---------------------------------------------------------------------------------------
 
 
 def run_job(spec):
-    ftype, unc, axes, v, tier, opts = spec
+    ftype, unc, axes, v, tier, opts, data = spec
     res = JobResult()
     _MEMO.clear()
     rolesets = [["A"], ["A", "B"]]
@@ -576,17 +623,17 @@ def run_job(spec):
     worst = 0.0
     for opt in opts:
         for roles in rolesets:
-            if not generated(ftype, unc, opt):
+            if not generated(ftype, unc, opt, data):
                 res.facts["not-generated:pull-without-uncertainty"] += 1
                 continue
             if "separate" in opt.split("+") and len(roles) == 1 and tier == "quick":
                 pass  # separate_figures with a single fit is still a legal call: kept (one figure expected)
-            cfg = dict(ftype=ftype, unc=unc, axes=axes, opt=opt, roles=roles, v=v)
+            cfg = dict(ftype=ftype, unc=unc, axes=axes, opt=opt, roles=roles, v=v, data=data)
             rec = execute(cfg)
             res.executions += 1
             res.transitions += getattr(rec, "ops", 0)
             res.evaluations += rec.n
-            key = (ftype, unc, axes, opt, tuple(roles), v)
+            key = (ftype, unc, axes, opt, tuple(roles), v) + ((data,) if data != "regular" else ())
             res.state(key)
             if getattr(rec, "nontrivial", False):
                 res.nontriv(key)
@@ -598,6 +645,7 @@ def run_job(spec):
                 res.facts["plot-call-moved-the-fit-parameters:" + opt] += 1
             res.facts["fit:" + ftype] += 1
             res.facts["unc:" + unc] += 1
+            res.facts["data:" + data] += 1
             res.facts["axes:" + axes] += 1
             res.facts["opt:" + opt] += 1
             res.facts["nfits:%d" % len(roles)] += 1
@@ -616,14 +664,14 @@ def run_job(spec):
     # measured basis of the tolerance: largest relative deviation among accepted comparisons, in decades
     if worst > 0:
         res.facts["max-accepted-relative-deviation-of-exact-comparisons<=1e%d" % int(np.ceil(np.log10(worst)))] += 1
-    res.sample(dict(fit=ftype, uncertainties=unc, axes=axes, valuation=v, options=opts, fits_on_plot=rolesets))
+    res.sample(dict(fit=ftype, uncertainties=unc, data=data, axes=axes, valuation=v, options=opts, fits_on_plot=rolesets))
     return res.as_dict()
 
 
 def replay(history):
     cfg = dict(history)
     cfg["roles"] = list(cfg["roles"])
-    if not generated(cfg["ftype"], cfg["unc"], cfg["opt"]):
+    if not generated(cfg["ftype"], cfg["unc"], cfg["opt"], cfg.get("data", "regular")):
         return []
     rec = execute(cfg)
     out, seen = [], set()
@@ -639,6 +687,7 @@ def vacuity_guards(tot, tier):
     yield "all four fit types plotted", all(tot.facts.get("fit:" + t, 0) > 0 for t in ("xy", "indexed", "hist", "unbinned"))
     yield "all options plotted", all(tot.facts.get("opt:" + o, 0) > 0 for o in OPTS)
     yield "one and two fits per plot", tot.facts.get("nfits:1", 0) > 0 and tot.facts.get("nfits:2", 0) > 0
+    yield "all data regions plotted", all(tot.facts.get("data:" + d, 0) > 0 for d in ("regular", "zero", "outflow", "counts"))
     yield "log axes plotted", tot.facts.get("axes:logx", 0) > 0 and tot.facts.get("axes:logy", 0) > 0
     oc = {k[:-1] for k in tot.outcomes if k[-1] == "ok"}
     need = [
@@ -646,6 +695,9 @@ def vacuity_guards(tot, tier):
         ("xy", "pull", "pull_bar"), ("indexed", "main", "model_y"), ("hist", "main", "model_y"), ("hist", "main", "density_shape"), ("unbinned", "main", "model_line"),
         ("xy", "legend", "error_up"), ("hist", "legend", "gof"), ("xy", "legend", "probability"), ("unbinned", "legend", "cost"), ("unbinned", "rejection", "TypeError"),
         ("hist", "ratio", "ybar"), ("indexed", "residual", "ybar"), ("hist", "pull", "pull_bar"),
+        ("xy", "main", "ybar_partial_zero"), ("xy", "ratio", "ybar_partial_zero"), ("xy", "residual", "ybar_partial_zero"), ("indexed", "main", "ybar_partial_zero"),
+        ("indexed", "ratio", "ybar_partial_zero"), ("indexed", "residual", "ybar_partial_zero"), ("hist", "main", "ybar_partial_zero"), ("hist", "ratio", "ybar_partial_zero"),
+        ("hist", "residual", "ybar_partial_zero"), ("hist", "main", "density_scale_outflow"), ("hist", "main", "density_scale_counts"), ("hist", "main", "density_scale_zero"),
     ]
     for n in need:
         yield "artist class %s compared" % "/".join(n), n in oc
